@@ -255,7 +255,7 @@ def gen_cases(prop, seed, n_types, per):
                 d = g.mutate(d)
                 if prop == "C02":                     # k >= 1 simultaneous violations at distinct paths
                     for _ in range(rnd.randint(0, 2)): d = g.mutate(d)
-            coerce = (prop == "C14") or (prop == "C03" and rnd.random() < 0.4)
+            coerce = (prop == "C14") or (prop == "C03" and rnd.random() < 0.4) or (prop == "C02" and t.kind == "optional" and rnd.random() < 0.5)
             if coerce and rnd.random() < 0.8: d = cmutate(rnd, d)
             if prop == "C03" and rnd.random() < 0.5:
                 d = malform(rnd, d, pool=MALFORMED + (SUBCLASSED if rnd.random() < 0.3 else []))
@@ -309,7 +309,15 @@ def evaluate(prop, t, tp, d, o, ns, mo):
         info["in_scope"] = bool((sc.get("acc") and sc.get("wf") or sc.get("accu") and sc.get("nouq") and sc.get("good")) and jsonish)
         if jsonish and not o["coerce"] and ik in ("ok", "invalid"): aliaser_check(t, tp, d, o, im, fails, info)
     elif prop == "C02":
-        if ik == "invalid" and im["invalid"] is not None:
+        if ik == "invalid" and im["invalid"] is not None and o["coerce"]:
+            # Optional[X] under coercion: the datum is not coercible to None and X rejects it - the errors of X are reported (as without coercion),
+            # a violation inside the value does not disappear behind "expected type null"
+            if t.kind == "optional" and instantiate(d) is not None:
+                inner = run_impl(eval(t.kids[0].py, ns), d, o)
+                if kind_of(inner) == "invalid" and inner["invalid"] is not None:
+                    missing = [e for e in inner["invalid"] if e not in im["invalid"]]
+                    if missing: fails.append("error-of-the-value-hidden-by-the-null-alternative"); info["value_alone"] = inner["invalid"][:5]
+        elif ik == "invalid" and im["invalid"] is not None:
             if mo.get("violations") is not None and modelled:
                 info["in_scope"] = True
                 if canon_errors(mo["violations"]) != im["invalid"]: fails.append("errors-differ-from-declared-violations")
